@@ -1436,6 +1436,8 @@ class Node:
             del self.connections[conn.ident]
         if conn.ident in self.peer_sockets:
             del self.peer_sockets[conn.ident]
+        if conn.ident in self._half_ready_connections:
+            del self._half_ready_connections[conn.ident]
         peer = self._find_connection_peer(conn)
         if peer and peer.connection in (conn, None):
             # unset so that a new connection may be made later
